@@ -94,7 +94,8 @@ Curated == {Z1, Z2, Z3, Z4, Z5, Z6, Z7, Z8, ZG, ZG2}
 
 AllRecs == UNION {{<<o, ty, t, rd>> : o \in (IF ty = "SOA" THEN {<<>>} ELSE Owners), t \in UTTLs, rd \in RdOf(ty)} : ty \in UTypes}
 Singles == {ZoneOf({r}) : r \in AllRecs}
-PairBase == {r \in AllRecs : r[3] # 600 /\ r[1] \in {<<>>, <<"a">>}}
+PairBase == {r \in AllRecs : r[1] \in {<<>>, <<"a">>} /\ r[3] = (IF r[1] = <<>> THEN 300 ELSE 5)
+                              /\ r[4] = (CHOOSE rd \in RdOf(r[2]) : TRUE)}
 PairSets == {S \in {{r1, r2} : r1, r2 \in PairBase} :
                \A x, y \in S : (x[1] = y[1] /\ x[2] = y[2]) => x[3] = y[3]}
 WellFormedPairs == {z \in {ZoneOf(S) : S \in PairSets} : WellFormedZone(z)}
@@ -114,11 +115,14 @@ Deviations(st) == Cardinality({k \in Knobs : st[k] # DefaultStyle[k]})
 \* every pair of knob values occurs in some vector with at most two non-default knobs
 PairwiseStyles == {st \in AllStyles : Deviations(st) <= 2}
 
+\* every semantic vector with owner de-duplication on (layout knobs off)
+DedupStyles == {st \in SemStyles : st.dedup}
+EmptiesStylesThorough == PairwiseStyles \cup DedupStyles
 SingleKnobStyles == {st \in AllStyles : Deviations(st) <= 1}
 
 (* spelling forms *)
 FullForms == [cls |-> {"none", "IN", "CLASS1"}, ord |-> {"tc", "ct"}, ttl |-> {"t", "u"}, tg |-> Bool, gen |-> Bool,
-              lay |-> {"single", "paren", "parenc"}, relorigin |-> TRUE]
+              lay |-> {"single", "paren", "parenc", "paren0"}, relorigin |-> TRUE]
 \* the reader ignores cls/ord/tg/lay by construction: the exhaustive run varies what it does not ignore
 McForms == [cls |-> {"none", "IN"}, ord |-> {"tc"}, ttl |-> {"t"}, tg |-> {FALSE}, gen |-> {FALSE, TRUE},
             lay |-> {"single"}, relorigin |-> TRUE]
@@ -139,8 +143,12 @@ UGenerates == {G1, G1b, G1c, G2}
 RRLine(owner, ttl, ty, names, data) ==
     [k |-> "rr", owner |-> owner, ttl |-> ttl, cls |-> "IN", ord |-> "tc", ty |-> ty, tg |-> FALSE, gen |-> FALSE,
      names |-> names, data |-> data, lay |-> "single"]
-UNoise == {RRLine(<<"abs", <<"x", "other">>>>, <<"t", 77>>, "A", <<>>, <<10, 9, 9, 9>>),
-           RRLine(<<"abs", <<>>>>, <<"none">>, "NS", << <<"abs", <<"ns", "other">>>> >>, <<>>),
-           RRLine(<<"blank">>, <<"none">>, "A", <<>>, <<10, 9, 9, 8>>),
-           RRLine(<<"rel", <<"x">>>>, <<"none">>, "A", <<>>, <<10, 9, 9, 7>>)}
+UNoiseBase == {RRLine(<<"abs", <<"x", "other">>>>, <<"t", 77>>, "A", <<>>, <<10, 9, 9, 9>>),
+               RRLine(<<"abs", <<>>>>, <<"none">>, "NS", << <<"abs", <<"ns", "other">>>> >>, <<>>),
+               RRLine(<<"blank">>, <<"none">>, "A", <<>>, <<10, 9, 9, 8>>),
+               RRLine(<<"rel", <<"x">>>>, <<"none">>, "A", <<>>, <<10, 9, 9, 7>>)}
+\* ignored records are spelled in every layout too (an ignored record ends where its last line ends)
+UNoise == UNoiseBase \cup {[n EXCEPT !.lay = "paren0"] : n \in UNoiseBase}
+          \cup {[RRLine(<<"abs", <<"x", "other">>>>, <<"t", 77>>, "MX", << <<"abs", <<"mx", "other">>>> >>, <<20>>) EXCEPT !.lay = l] :
+                  l \in {"paren", "parenc"}}
 =============================================================================
